@@ -292,6 +292,11 @@ func (r *Run) Inconclusive(reason string) {
 // Violate records a violation. Violations with the same signature are grouped;
 // the first case seen for a signature becomes its witness.
 func (r *Run) Violate(stage, sig, msg string, c any) {
+	// a witness that JSON cannot carry (a NaN or an infinity in a float field) must not take the
+	// report down with it: it is kept as text
+	if _, err := json.Marshal(c); err != nil {
+		c = map[string]any{"case_as_text": fmt.Sprintf("%+v", c), "note": "not encodable as JSON: " + err.Error()}
+	}
 	r.mu.Lock()
 	defer r.mu.Unlock()
 	if v, ok := r.viol[sig]; ok {
